@@ -131,7 +131,21 @@ func register(c config) *rux.Router {
 			gm[i] = stray
 		}
 	}()
+	// before the resource is registered the application looks up names and lists routes (read-only), and once passes
+	// something that is no controller (refused; it recovers)
+	pre := func() {
+		if c.bits%2 == 0 {
+			model.Observe(r)
+			_ = r.GetRoute(c.resName() + "_index")
+		}
+		if c.bits%3 == 0 {
+			notAStruct := "x"
+			model.TryCall(func() { r.Resource(c.basePath, &notAStruct, gm...) })
+			model.TryCall(func() { r.Resource(c.basePath, map[string]int{}, gm...) })
+		}
+	}
 	if c.outer == "" {
+		pre()
 		r.Resource(c.basePath, newController(c.bits, c.uses, b), gm...)
 		return r
 	}
@@ -143,6 +157,7 @@ func register(c config) *rux.Router {
 		for i := 0; i < c.outerUse; i++ {
 			r.Use(mw(fmt.Sprintf("use%d", i)))
 		}
+		pre()
 		r.Resource(c.basePath, newController(c.bits, c.uses, b), gm...)
 	}, om...)
 	return r
